@@ -729,6 +729,10 @@ func (l *lexer) lexHeredoc() action {
 // lexing cannot continue (error, or end of input).
 func (l *lexer) scanHeredoc() bool {
 	find := func(r *ast.Redir, delim string) bool {
+		// the line that has just been read, line continuations
+		// included, begins at the earliest part in column 1 after the
+		// last <newline>
+		start, line := -1, ""
 		for i := len(l.word) - 1; i >= 0; i-- {
 			if l.word[i].Pos().Col() == 1 {
 				s := l.print(l.word[i:])
@@ -738,13 +742,15 @@ func (l *lexer) scanHeredoc() bool {
 				}
 				if strings.ContainsRune(s, '\n') {
 					break
-				} else if s == delim {
-					r.Heredoc = l.word[:i]
-					r.Delim = l.word[i:]
-					l.word = nil
-					return true
 				}
+				start, line = i, s
 			}
+		}
+		if start >= 0 && line == delim {
+			r.Heredoc = l.word[:start]
+			r.Delim = l.word[start:]
+			l.word = nil
+			return true
 		}
 		return false
 	}
